@@ -36,7 +36,7 @@ package aspect_elimination
 //@   refines model.BiasListener.Merge with validParams=aeValid, coversId=aeCovers, accepts=aeAccepts, acceptsAny=aeAcceptsAny
 
 //@ func (*AspectEliminationBiasListener).RankCriteriaAscending
-//@   property C15 C07
+//@   property C15 C07 C16 C18 C19
 //@   refines model.BiasListener.RankCriteriaAscending with validParams=aeValid, coversId=aeCovers, imp=aeImportance
 
 // ---- the heuristic's building blocks (C12)
